@@ -375,7 +375,7 @@ def Holder.addFixup (h : Holder) (id : Nat) (f : Fixup) : Holder :=
 
 /-- `x86::Assembler::_emit(kIdJmp, label)` (`EmitJmpCall`, `EmitJmpCallRel`, `EmitRel`); every exit resets the
     one-shot state -/
-def asmJmp (h : Holder) (c : Cur) (id : Nat) : Holder × Cur × String :=
+def asmJmpCore (h : Holder) (c : Cur) (id : Nat) : Holder × Cur × String :=
   let done : Cur → Cur := fun c => { c with opts := 0, cmt := false }
   -- `writer.ensure_space(this, 16)` happens before the label is looked at
   let h := { h with textCap := h.textCap || c.sec == 0 }
@@ -421,6 +421,21 @@ def asmJmp (h : Holder) (c : Cur) (id : Nat) : Holder × Cur × String :=
 /-- `data_size == 0` means "register size" -/
 def elabelSize (arch : Option Arch) (size : Nat) : Nat :=
   if size == 0 then (if arch == some .x86 then 4 else 8) else size
+
+/-- overwrite one byte that already lies inside the section buffer -/
+def Holder.poke (h : Holder) (s off v : Nat) : Holder :=
+  { h with secs := updAt h.secs s fun x => if off < x.bytes.length then { x with bytes := writeAt x.bytes off [v] } else x }
+
+/-- `EmitJmpCall` starts with `writer.emit8_if(rex | kX86ByteRex, rex != 0)`, and `emit8_if` is branch-free: it stores the
+    byte at the cursor and advances the cursor only if the condition holds.  Without a REX prefix the value is 0x40 and
+    the cursor stays: a successful emission overwrites the byte with the opcode, a REFUSED one (InvalidLabel,
+    InvalidDisplacement) leaves it there.  It lies past this assembler's committed cursor, so it is not output - unless
+    another emitter's data sits at this assembler's (stale) cursor, which the world of this model allows. -/
+def jmpScratch (h : Holder) (c : Cur) : Holder :=
+  if h.arch == some .a64 then h else h.poke c.sec c.off 64
+
+/-- `x86::Assembler::_emit(kIdJmp, label)` / `a64::Assembler::_emit(kIdB, label)` -/
+def asmJmp (h : Holder) (c : Cur) (id : Nat) : Holder × Cur × String := asmJmpCore (jmpScratch h c) c id
 
 /-- `BaseAssembler::embed_label` once the data size is known -/
 def asmElabelSz (h : Holder) (c : Cur) (id size : Nat) : Holder × Cur × String :=
